@@ -94,13 +94,6 @@ Lemma bmem_false b l : bmem b l = false <-> ~ In b l.
 Proof. rewrite <- bmem_In. destruct (bmem b l); split; congruence. Qed.
 
 (* ---------------------------------------------------------------- the LIMIT queue *)
-(* geb asc a b: key a is at least as good as key b (undefined keys are worst) *)
-Definition geb (asc : bool) (a b : option str) : bool :=
-  match a, b with
-  | _, None => true
-  | None, Some _ => false
-  | Some x, Some y => if asc then str_leb x y else str_leb y x
-  end.
 
 Lemma geb_refl asc a : geb asc a a = true.
 Proof. destruct a; simpl; auto. destruct asc; apply str_leb_refl. Qed.
@@ -158,10 +151,6 @@ Proof.
   rewrite IH. apply perm_swap.
 Qed.
 
-Definition q_step (asc : bool) (n : nat) (q : list qitem) (it : qitem) : list qitem :=
-  firstn n (q_insert asc q it).
-Definition q_run (asc : bool) (n : nat) (its : list qitem) : list qitem :=
-  fold_left (q_step asc n) its [].
 
 Lemma sorted_firstn {A} (R : A -> A -> Prop) n l : StronglySorted R l -> StronglySorted R (firstn n l).
 Proof.
@@ -196,14 +185,17 @@ Proof. intros H. rewrite <- (firstn_skipn n l) in H. apply in_app_or in H. exact
 Lemma qitem_eq_dec (a b : qitem) : {a = b} + {a <> b}.
 Proof. decide equality; [decide equality; apply list_eq_dec, N.eq_dec | apply list_eq_dec, N.eq_dec]. Qed.
 
-Lemma NoDup_firstn_skipn {A} n (l : list A) x : NoDup l -> In x (firstn n l) -> In x (skipn n l) -> False.
+Lemma NoDup_app_disjoint {A} (l1 l2 : list A) x : NoDup (l1 ++ l2) -> In x l1 -> In x l2 -> False.
 Proof.
-  intros Hnd H1 H2. rewrite <- (firstn_skipn n l) in Hnd.
-  revert Hnd H1 H2. generalize (firstn n l) (skipn n l). intros l1 l2.
   induction l1 as [|a l1 IH]; simpl; [tauto|].
   intros Hnd [->|H1] H2; inversion Hnd as [|? ? Hnot Hnd']; subst.
   - apply Hnot. apply in_or_app; auto.
   - eauto.
+Qed.
+
+Lemma NoDup_firstn_skipn {A} n (l : list A) x : NoDup l -> In x (firstn n l) -> In x (skipn n l) -> False.
+Proof.
+  intros Hnd H1 H2. rewrite <- (firstn_skipn n l) in Hnd. eapply NoDup_app_disjoint; eauto.
 Qed.
 
 Lemma NoDup_app_l {A} (l1 l2 : list A) : NoDup (l1 ++ l2) -> NoDup l1.
@@ -459,7 +451,6 @@ Lemma add_refs_sorted b rs t : rsorted t -> rsorted (add_refs b rs t).
 Proof. unfold add_refs. induction rs as [|r rs IH]; simpl; auto. intros H. now apply rins_sorted, IH. Qed.
 
 (* ---------------------------------------------------------------- the files table (rows keyed by bid) *)
-Definition row_lt (a b : row) : Prop := str_cmp (fst a) (fst b) = Lt.
 Definition rows_sorted : list row -> Prop := StronglySorted row_lt.
 
 Lemma find_row_ins_row x l b :
@@ -569,9 +560,6 @@ Proof.
 Qed.
 
 (* ---------------------------------------------------------------- second pass: the closure loop *)
-Inductive reach (I : index) (S0 : list bid) : bid -> Prop :=
-| reach_base b : In b S0 -> reach I S0 b
-| reach_step a b : reach I S0 a -> In b (refs_of I a) -> reach I S0 b.
 
 Lemma refs_of_In I a b : In b (refs_of I a) <-> In (a, b) (ix_refs I).
 Proof.
@@ -652,8 +640,536 @@ Proof.
       unfold unvisited in *. cbn [bmem] in *. cbn [length] in Hm. unfold bid, str in *. lia.
 Qed.
 
+Lemma filter_len_le {A} (p : A -> bool) l : (length (filter p l) <= length l)%nat.
+Proof. induction l as [|a l IH]; simpl; [lia|]. destruct (p a); simpl; lia. Qed.
+
 Lemma closure_fuel_enough_proof I S0 : closure I S0 <> None.
 Proof.
   unfold closure, close_fuel. apply close_fuel_enough.
-  unfold unvisited. pose proof (filter_length_le (fun p : bid * bid => negb (bmem (fst p) S0)) (ix_refs I)). unfold bid, str in *. lia.
+  unfold unvisited. pose proof (filter_len_le (fun p : bid * bid => negb (bmem (fst p) S0)) (ix_refs I)). unfold bid, str in *. lia.
 Qed.
+
+(* ---------------------------------------------------------------- first pass: query *)
+(* one expression over all rows (the code runs the loops the other way round) *)
+Fixpoint run_rexpr (I : index) (r : rexpr) (st : rstate) (bs : list bid) : res rstate :=
+  match bs with
+  | [] => Ok st
+  | b :: rest => match evaluate r st b (get_vars I b) with
+                 | Err => Err
+                 | Ok st' => run_rexpr I r st' rest
+                 end
+  end.
+
+Lemma eval_exprs_spec sts : forall b d sts1, eval_exprs sts b d = Ok sts1 ->
+  Forall2 (fun p p1 => fst p1 = fst p /\ evaluate (fst p) (snd p) b d = Ok (snd p1)) sts sts1.
+Proof.
+  induction sts as [|[r st] sts IH]; intros b d sts1 H; simpl in H.
+  - inversion H. constructor.
+  - destruct (evaluate r st b d) as [st'|] eqn:E; [|discriminate].
+    destruct (eval_exprs sts b d) as [l|] eqn:E2; [|discriminate].
+    inversion H; subst. constructor; [simpl; auto|]. now apply IH.
+Qed.
+
+Lemma eval_rows_split I bs : forall sts sts', eval_rows I sts bs = Ok sts' ->
+  Forall2 (fun p p' => fst p' = fst p /\ run_rexpr I (fst p) (snd p) bs = Ok (snd p')) sts sts'.
+Proof.
+  induction bs as [|b bs IH]; intros sts sts' H; simpl in H.
+  - inversion H; subst. induction sts'; constructor; auto.
+  - destruct (eval_exprs sts b (get_vars I b)) as [sts1|] eqn:E; [|discriminate].
+    apply eval_exprs_spec in E. apply IH in H. clear IH.
+    revert sts' H. induction E as [|p p1 l l1 [Hf He] _ IHE]; intros sts' H.
+    + inversion H. constructor.
+    + inversion H as [|? p' ? l' [Hf' Hr] Hrest]; subst. constructor.
+      * split; [congruence|]. simpl. rewrite He. rewrite <- Hf. exact Hr.
+      * now apply IHE.
+Qed.
+
+
+Lemma mitems_In I r bs b k :
+  In (b, k) (mitems I r bs) <-> In b bs /\ matches I r b = true /\ k = key_of I r b.
+Proof.
+  unfold mitems. rewrite in_map_iff. split.
+  - intros (x & Hx & Hin). inversion Hx; subst. apply filter_In in Hin. tauto.
+  - intros (H1 & H2 & ->). exists b. split; [reflexivity|]. now apply filter_In.
+Qed.
+
+Lemma mitems_fst I r bs : map fst (mitems I r bs) = filter (matches I r) bs.
+Proof. unfold mitems. rewrite map_map. simpl. apply map_id. Qed.
+
+Lemma NoDup_filter {A} (p : A -> bool) l : NoDup l -> NoDup (filter p l).
+Proof.
+  induction l as [|a l IH]; simpl; intros H; [constructor|].
+  inversion H as [|? ? Hn Hd]; subst. destruct (p a); auto. constructor; auto.
+  intros Hin. apply filter_In in Hin. tauto.
+Qed.
+
+Lemma remove_bids_In V l x : In x (remove_bids V l) <-> In x l /\ ~ In x V.
+Proof.
+  induction l as [|a l IH]; simpl; [tauto|].
+  destruct (bmem a V) eqn:E.
+  - apply bmem_In in E. rewrite IH. split; [tauto|]. intros [[->|H] Hn]; tauto.
+  - apply bmem_false in E. simpl. rewrite IH. split; [|tauto].
+    intros [->|[H Hn]]; auto.
+Qed.
+
+Lemma remove_bids_NoDup V l : NoDup l -> NoDup (remove_bids V l).
+Proof.
+  induction l as [|a l IH]; simpl; intros H; [constructor|].
+  inversion H as [|? ? Hn Hd]; subst. destruct (bmem a V); auto. constructor; auto.
+  intros Hin. apply remove_bids_In in Hin. tauto.
+Qed.
+
+(* state of a LIMIT expression relative to the build-ids processed so far *)
+Record lim_inv (st : rstate) (seen : list bid) : Prop := {
+  li_same : forall x, In x (rs_retained st) <-> In x (map fst (rs_queue st));
+  li_nodup : NoDup (rs_retained st);
+  li_seen : incl (rs_retained st) seen;
+  li_qnodup : NoDup (map fst (rs_queue st))
+}.
+
+Opaque remove_bids.
+Lemma evaluate_limit_step I r n st seen b st' :
+  r_limit r = Some n -> lim_inv st seen -> ~ In b seen ->
+  evaluate r st b (get_vars I b) = Ok st' ->
+  lim_inv st' (seen ++ [b]) /\
+  rs_queue st' = if matches I r b then q_step (r_asc r) (N.to_nat n) (rs_queue st) (b, key_of I r b)
+                 else rs_queue st.
+Proof.
+  intros Hlim [Hsame Hnd Hseen Hqnd] Hfresh. unfold evaluate, matches, key_of.
+  assert (bmem b (rs_retained st) = false) as -> by (apply bmem_false; intros H; apply Hfresh, Hseen, H).
+  destruct (eval_bool (get_vars I b) (r_expr r)) as [[|]|] eqn:Eb; try discriminate.
+  2:{ intros H; inversion H; subst. split; [|reflexivity].
+      split; auto. intros x Hx. apply in_or_app. left. now apply Hseen. }
+  rewrite Hlim. destruct (eval_var (get_vars I b) (sort_path r)) as [k|] eqn:Ek; [|discriminate].
+  intros [= <-]. cbn [rs_retained rs_queue]. split; [|reflexivity].
+  set (q' := q_insert (r_asc r) (rs_queue st) (b, k)).
+  assert (NoDup (map fst q')) as Hq'.
+  { eapply Permutation_NoDup; [symmetry; apply q_insert_fst|]. simpl. constructor; auto.
+    intros Hin. apply Hfresh, Hseen. now apply Hsame. }
+  assert (forall x, In x (map fst q') <-> x = b \/ In x (rs_retained st)) as Hq'in.
+  { intros x. unfold q'. split; intros Hx.
+    - eapply Permutation_in in Hx; [|apply q_insert_fst]. simpl in Hx. rewrite Hsame. intuition.
+    - eapply Permutation_in; [symmetry; apply q_insert_fst|]. simpl. rewrite <- Hsame. intuition. }
+  pose proof (firstn_skipn (N.to_nat n) q') as Hsplit.
+  assert (forall x, In x (map fst (firstn (N.to_nat n) q')) <->
+                    In x (map fst q') /\ ~ In x (map fst (skipn (N.to_nat n) q'))) as Hfirst.
+  { intros x. rewrite <- Hsplit at 2. rewrite map_app, in_app_iff.
+    rewrite <- Hsplit, map_app in Hq'. split.
+    - intros Hx. split; [auto|]. intros Hy. eapply NoDup_app_disjoint; eauto.
+    - tauto. }
+  split; cbn [rs_retained rs_queue].
+  - intros x. rewrite remove_bids_In, Hfirst, Hq'in. simpl. intuition.
+  - apply remove_bids_NoDup. constructor; auto.
+  - intros x Hx. apply remove_bids_In in Hx as [[<-|Hx] _]; apply in_or_app; simpl; auto.
+  - rewrite <- Hsplit, map_app in Hq'. now apply NoDup_app_l in Hq'.
+Qed.
+
+Transparent remove_bids.
+
+Lemma run_rexpr_limit I r n : r_limit r = Some n ->
+  forall bs st seen st', lim_inv st seen -> NoDup (seen ++ bs) ->
+  run_rexpr I r st bs = Ok st' ->
+  lim_inv st' (seen ++ bs) /\
+  rs_queue st' = fold_left (q_step (r_asc r) (N.to_nat n)) (mitems I r bs) (rs_queue st).
+Proof.
+  intros Hlim. induction bs as [|b bs IH]; intros st seen st' Hinv Hnd H; simpl in H.
+  - inversion H; subst. rewrite app_nil_r. auto.
+  - destruct (evaluate r st b (get_vars I b)) as [st1|] eqn:E; [|discriminate].
+    assert (~ In b seen) as Hfresh.
+    { apply NoDup_remove_2 in Hnd. intros Hin. apply Hnd. apply in_or_app; auto. }
+    destruct (evaluate_limit_step I r n st seen b st1 Hlim Hinv Hfresh E) as [Hinv1 Hq1].
+    replace (seen ++ b :: bs) with ((seen ++ [b]) ++ bs) in * by (rewrite <- app_assoc; reflexivity).
+    destruct (IH st1 (seen ++ [b]) st' Hinv1 Hnd H) as [Hinv' Hq']. split; [exact Hinv'|].
+    rewrite Hq', Hq1. unfold mitems. simpl. destruct (matches I r b); reflexivity.
+Qed.
+
+Lemma run_rexpr_nolimit I r : r_limit r = None ->
+  forall bs st st', run_rexpr I r st bs = Ok st' -> NoDup bs -> (forall b, In b bs -> ~ In b (rs_retained st)) ->
+  forall x, In x (rs_retained st') <-> In x (rs_retained st) \/ In x (filter (matches I r) bs).
+Proof.
+  intros Hlim. induction bs as [|b bs IH]; intros st st' H Hnd Hfresh x; simpl in H.
+  - inversion H; subst. simpl. tauto.
+  - destruct (evaluate r st b (get_vars I b)) as [st1|] eqn:E; [|discriminate].
+    inversion Hnd as [|? ? Hnb Hnd']; subst.
+    unfold evaluate in E.
+    assert (bmem b (rs_retained st) = false) as Hb by (apply bmem_false, Hfresh; left; reflexivity).
+    rewrite Hb in E. simpl. unfold matches at 1.
+    destruct (eval_bool (get_vars I b) (r_expr r)) as [[|]|] eqn:Eb; try discriminate.
+    + rewrite Hlim in E. inversion E; subst st1; clear E.
+      rewrite (IH _ _ H Hnd'); simpl.
+      * intuition.
+      * intros c Hc [<-|Hin]; [contradiction|]. eapply Hfresh; [right; exact Hc|exact Hin].
+    + inversion E; subst st1. rewrite (IH _ _ H Hnd'); [tauto|].
+      intros c Hc. apply Hfresh. now right.
+Qed.
+
+Lemma lim_inv_init : lim_inv rs_init [].
+Proof. split; simpl; try constructor; try tauto. intros ? []. Qed.
+
+Lemma NoDup_same_length {A} (l1 l2 : list A) :
+  NoDup l1 -> NoDup l2 -> (forall x, In x l1 <-> In x l2) -> length l1 = length l2.
+Proof. intros H1 H2 H. apply Permutation_length. now apply NoDup_Permutation. Qed.
+
+
+Lemma run_rexpr_selects I r st :
+  NoDup (build_ids I) -> r_limit r <> Some 0 ->
+  run_rexpr I r rs_init (build_ids I) = Ok st -> selects I r (rs_retained st).
+Proof.
+  intros Hnd Hn0 Hrun. unfold selects. destruct (r_limit r) as [n|] eqn:Hlim.
+  - destruct (run_rexpr_limit I r n Hlim (build_ids I) rs_init [] st lim_inv_init Hnd Hrun) as [[Hsame Hnds _ Hqnd] Hq].
+    simpl in Hq. fold (q_run (r_asc r) (N.to_nat n) (mitems I r (build_ids I))) in Hq.
+    assert (0 < N.to_nat n)%nat as Hpos by (destruct n; [congruence|lia]).
+    assert (NoDup (map fst (mitems I r (build_ids I)))) as HndM by (rewrite mitems_fst; now apply NoDup_filter).
+    destruct (q_run_inv (r_asc r) (N.to_nat n) _ Hpos HndM) as [_ Hincl _ Hlen _ Hbest].
+    rewrite <- Hq in *.
+    split; [exact Hnds|]. split; [|split].
+    + intros x Hx. apply Hsame in Hx. apply in_map_iff in Hx as (e & <- & He). apply in_map. now apply Hincl.
+    + rewrite <- Hlen. transitivity (length (map fst (rs_queue st))); [now apply NoDup_same_length|apply map_length].
+    + intros x y Hx Hy Hny.
+      apply Hsame in Hx. apply in_map_iff in Hx as ([x' kx] & Hfx & Hex). simpl in Hfx; subst x'.
+      apply in_map_iff in Hy as ([y' ky] & Hfy & Hey). simpl in Hfy; subst y'.
+      assert (kx = key_of I r x) as <- by (apply Hincl, mitems_In in Hex; tauto).
+      assert (ky = key_of I r y) as <- by (apply mitems_In in Hey; tauto).
+      apply (Hbest (x, kx) (y, ky) Hex Hey).
+      intros Hin. apply Hny, Hsame. apply in_map_iff. exists (y, ky). auto.
+  - intros x. rewrite (run_rexpr_nolimit I r Hlim _ _ _ Hrun Hnd); [|intros ? _ []].
+    rewrite mitems_fst. simpl. tauto.
+Qed.
+
+Lemma parse_all_spec es rs : parse_all es = Ok rs ->
+  Forall2 (fun e r => e = RGood r /\ r_limit r <> Some 0) es rs.
+Proof.
+  revert rs; induction es as [|[|r] es IH]; intros rs H; simpl in H; try discriminate.
+  - inversion H. constructor.
+  - destruct (r_limit r) as [[|p]|] eqn:El; try discriminate;
+    destruct (parse_all es) as [l|] eqn:E; try discriminate; inversion H; subst;
+    (constructor; [split; [reflexivity|rewrite El; congruence]|now apply IH]).
+Qed.
+
+Lemma query_spec I es S : NoDup (build_ids I) -> query I es = Ok S ->
+  exists rs Ss, Forall2 (fun e r => e = RGood r /\ r_limit r <> Some 0) es rs /\
+                Forall2 (selects I) rs Ss /\
+                forall x, In x S <-> exists S1, In S1 Ss /\ In x S1.
+Proof.
+  intros Hnd. unfold query. destruct (parse_all es) as [rs|] eqn:Ep; [|discriminate].
+  destruct (eval_rows I _ (build_ids I)) as [sts|] eqn:Er; [|discriminate].
+  intros H; inversion H; subst S; clear H.
+  apply parse_all_spec in Ep. apply eval_rows_split in Er.
+  exists rs, (map (fun p => rs_retained (snd p)) sts). split; [exact Ep|]. split.
+  - assert (Forall (fun r => r_limit r <> Some 0) rs) as Hn0.
+    { clear Er. induction Ep as [|? ? ? ? [_ ?] _ IH]; constructor; auto. }
+    clear Ep. revert sts Er. induction rs as [|r rs IH]; intros sts Er; simpl in Er.
+    + inversion Er. constructor.
+    + inversion Er as [|? [r' st'] ? l' [Hf Hr] Hrest]; subst. simpl in *. subst r'.
+      inversion Hn0; subst. constructor; [now apply run_rexpr_selects|]. now apply IH.
+  - intros x. rewrite in_flat_map. split.
+    + intros (p & Hp & Hx). exists (rs_retained (snd p)). split; [|exact Hx].
+      apply in_map_iff. exists p. auto.
+    + intros (S1 & HS1 & Hx). apply in_map_iff in HS1 as (p & <- & Hp). eauto.
+Qed.
+
+(* ---------------------------------------------------------------- the index as image of the archive *)
+Lemma ar_find_None b A : ar_find b A = None <-> ~ In b (ar_bids A).
+Proof.
+  unfold ar_find, ar_bids. induction A as [|f A IH]; simpl; [tauto|].
+  destruct (str_eqb (f_bid f) b) eqn:E.
+  - apply str_eqb_eq in E. split; [discriminate|]. intros H. exfalso. apply H. auto.
+  - apply str_eqb_neq in E. rewrite IH. tauto.
+Qed.
+
+Lemma ar_find_Some b A f : ar_find b A = Some f -> In f A /\ f_bid f = b.
+Proof.
+  unfold ar_find. intros H. apply find_some in H as [H1 H2]. apply str_eqb_eq in H2. auto.
+Qed.
+
+Lemma ar_find_wf A f : wf A -> In f A -> ar_find (f_bid f) A = Some f.
+Proof.
+  unfold wf, ar_find, ar_bids. induction A as [|g A IH]; simpl; [tauto|].
+  intros Hnd [->|Hin].
+  - now rewrite str_eqb_refl.
+  - inversion Hnd as [|? ? Hn Hnd']; subst. destruct (str_eqb (f_bid g) (f_bid f)) eqn:E; [|auto].
+    apply str_eqb_eq in E. exfalso. apply Hn. rewrite E. now apply in_map.
+Qed.
+
+Lemma ar_find_snoc b P f :
+  ar_find b (P ++ [f]) = match ar_find b P with
+                         | Some g => Some g
+                         | None => if str_eqb (f_bid f) b then Some f else None
+                         end.
+Proof.
+  unfold ar_find. induction P as [|g P IH]; simpl; [reflexivity|].
+  destruct (str_eqb (f_bid g) b); auto.
+Qed.
+
+Definition rowof (f : afile) : option (N * vars) :=
+  match f_audit f with Some au => Some (f_stat f, au_vars au) | None => None end.
+Definition refsof (f : afile) : list bid :=
+  match f_audit f with Some au => audit_refs au | None => [] end.
+
+Lemma rowspec_eq A b : rowspec A b = match ar_find b A with Some f => rowof f | None => None end.
+Proof. reflexivity. Qed.
+Lemma refspec_eq A b : refspec A b = match ar_find b A with Some f => refsof f | None => [] end.
+Proof. reflexivity. Qed.
+
+Lemma refspec_rowspec A b r : In r (refspec A b) -> rowspec A b <> None.
+Proof.
+  rewrite refspec_eq, rowspec_eq. destruct (ar_find b A) as [f|]; [|intros []].
+  unfold refsof, rowof. destruct (f_audit f); [discriminate|intros []].
+Qed.
+
+Lemma rowspec_absent A b : ~ In b (ar_bids A) -> rowspec A b = None.
+Proof. intros H. apply ar_find_None in H. now rewrite rowspec_eq, H. Qed.
+
+Lemma refspec_absent A b : ~ In b (ar_bids A) -> refspec A b = [].
+Proof. intros H. apply ar_find_None in H. now rewrite refspec_eq, H. Qed.
+
+Definition mixrow (P A0 : archive) (b : bid) : option (N * vars) :=
+  if bmem b (ar_bids P) then rowspec P b else rowspec A0 b.
+Definition mixref (P A0 : archive) (b : bid) : list bid :=
+  if bmem b (ar_bids P) then refspec P b else refspec A0 b.
+
+Lemma bmem_snoc b P f : bmem b (ar_bids (P ++ [f])) = bmem b (ar_bids P) || str_eqb b (f_bid f).
+Proof.
+  unfold ar_bids. induction P as [|g P IH]; simpl; [now rewrite orb_false_r|].
+  rewrite IH. now rewrite orb_assoc.
+Qed.
+
+Lemma mix_snoc P A0 f b : ~ In (f_bid f) (ar_bids P) ->
+  mixrow (P ++ [f]) A0 b = (if str_eqb b (f_bid f) then rowof f else mixrow P A0 b) /\
+  mixref (P ++ [f]) A0 b = (if str_eqb b (f_bid f) then refsof f else mixref P A0 b).
+Proof.
+  intros Hn. unfold mixrow, mixref. rewrite bmem_snoc, !rowspec_eq, !refspec_eq, ar_find_snoc.
+  destruct (str_eqb b (f_bid f)) eqn:E.
+  - apply str_eqb_eq in E. subst b. rewrite orb_true_r.
+    apply ar_find_None in Hn. rewrite Hn, str_eqb_refl. auto.
+  - rewrite orb_false_r. destruct (bmem b (ar_bids P)) eqn:Eb; [|auto].
+    destruct (ar_find b P) as [g|] eqn:Ef; [auto|].
+    apply ar_find_None in Ef. apply bmem_In in Eb. contradiction.
+Qed.
+
+Lemma ix_remove_row b0 I b :
+  find_row b (ix_files (ix_remove b0 I)) = if str_eqb b b0 then None else find_row b (ix_files I).
+Proof. simpl. apply find_row_filter. Qed.
+
+Lemma ix_remove_ref b0 I b r :
+  In (b, r) (ix_refs (ix_remove b0 I)) <-> b <> b0 /\ In (b, r) (ix_refs I).
+Proof.
+  simpl. rewrite filter_In. simpl. rewrite negb_true_iff, str_eqb_neq. tauto.
+Qed.
+
+Record tables_sorted (I : index) : Prop := {
+  ts_files : rows_sorted (ix_files I);
+  ts_refs : rsorted (ix_refs I)
+}.
+
+Lemma ix_remove_sorted b I : tables_sorted I -> tables_sorted (ix_remove b I).
+Proof. intros [H1 H2]. split; simpl; [now apply rows_sorted_filter|now apply sorted_filter]. Qed.
+
+Lemma scan_new_sorted I f : tables_sorted I -> tables_sorted (scan_new I f).
+Proof.
+  intros [H1 H2]. unfold scan_new. destruct (f_audit f); [|now split].
+  split; simpl; [now apply ins_row_sorted|now apply add_refs_sorted].
+Qed.
+
+Lemma scan_new_row I f b :
+  find_row b (ix_files (scan_new I f)) =
+  match f_audit f with
+  | Some _ => if str_eqb b (f_bid f) then rowof f else find_row b (ix_files I)
+  | None => find_row b (ix_files I)
+  end.
+Proof.
+  unfold scan_new, rowof. destruct (f_audit f); [|reflexivity]. simpl. apply find_row_ins_row.
+Qed.
+
+Lemma scan_new_ref I f b r :
+  In (b, r) (ix_refs (scan_new I f)) <-> (b = f_bid f /\ In r (refsof f)) \/ In (b, r) (ix_refs I).
+Proof.
+  unfold scan_new, refsof. destruct (f_audit f); simpl; [|tauto].
+  rewrite add_refs_In. simpl. tauto.
+Qed.
+
+(* state of the scan loop after the files P have been visited *)
+Record scan_inv (J : index) (P A0 : archive) : Prop := {
+  si_sorted : tables_sorted J;
+  si_rows : forall b, find_row b (ix_files J) = mixrow P A0 b;
+  si_refs : forall b r, In (b, r) (ix_refs J) <-> In r (mixref P A0 b)
+}.
+
+Lemma scan_one_inv J cl P A0 f :
+  scan_inv J P A0 -> wf A0 -> ~ In (f_bid f) (ar_bids P) ->
+  (forall g, In g A0 -> f_bid g = f_bid f -> f_stat g = f_stat f -> f_audit g = f_audit f) ->
+  scan_inv (fst (scan_one (J, cl) f)) (P ++ [f]) A0.
+Proof.
+  intros [Hs Hrows Hrefs] Hwf Hn Hcompat. unfold scan_one.
+  assert (mixrow P A0 (f_bid f) = rowspec A0 (f_bid f)) as Hm1
+    by (unfold mixrow; apply bmem_false in Hn; now rewrite Hn).
+  assert (mixref P A0 (f_bid f) = refspec A0 (f_bid f)) as Hm2
+    by (unfold mixref; apply bmem_false in Hn; now rewrite Hn).
+  destruct (find_row (f_bid f) (ix_files J)) as [[st v]|] eqn:Ef.
+  - destruct (st =? f_stat f) eqn:Est; simpl.
+    + (* cached stat unchanged: the row is kept *)
+      apply N.eqb_eq in Est. subst st.
+      rewrite Hrows, Hm1, rowspec_eq in Ef.
+      destruct (ar_find (f_bid f) A0) as [g|] eqn:Eg; [|discriminate].
+      apply ar_find_Some in Eg as [Hg Hgb].
+      assert (f_audit g = f_audit f) as Haud.
+      { apply Hcompat; auto. unfold rowof in Ef. destruct (f_audit g); [|discriminate]. congruence. }
+      assert (rowof g = rowof f) as Hro.
+      { unfold rowof in *. rewrite Haud in *. destruct (f_audit f); [|discriminate]. congruence. }
+      assert (refsof g = refsof f) as Hre by (unfold refsof; now rewrite Haud).
+      assert (rowspec A0 (f_bid f) = rowof f /\ refspec A0 (f_bid f) = refsof f) as [Hr1 Hr2].
+      { rewrite rowspec_eq, refspec_eq. rewrite <- Hgb. rewrite (ar_find_wf A0 g Hwf Hg). auto. }
+      split; [exact Hs| |].
+      * intros b. destruct (mix_snoc P A0 f b Hn) as [-> _]. rewrite Hrows.
+        destruct (str_eqb b (f_bid f)) eqn:E; [|reflexivity]. apply str_eqb_eq in E. subst b. congruence.
+      * intros b r. destruct (mix_snoc P A0 f b Hn) as [_ ->]. rewrite Hrefs.
+        destruct (str_eqb b (f_bid f)) eqn:E; [|reflexivity]. apply str_eqb_eq in E. subst b. now rewrite Hm2, Hr2.
+    + (* stat changed: row and references are dropped and read again *)
+      split.
+      * apply scan_new_sorted, ix_remove_sorted, Hs.
+      * intros b. destruct (mix_snoc P A0 f b Hn) as [-> _]. rewrite scan_new_row, ix_remove_row, Hrows.
+        unfold rowof. destruct (f_audit f); destruct (str_eqb b (f_bid f)); reflexivity.
+      * intros b r. destruct (mix_snoc P A0 f b Hn) as [_ ->]. rewrite scan_new_ref, ix_remove_ref, Hrefs.
+        destruct (str_eqb b (f_bid f)) eqn:E.
+        -- apply str_eqb_eq in E. subst b. tauto.
+        -- apply str_eqb_neq in E. tauto.
+  - (* no row yet *)
+    simpl.
+    assert (refspec A0 (f_bid f) = []) as Hnor.
+    { destruct (refspec A0 (f_bid f)) as [|r l] eqn:E; [reflexivity|].
+      exfalso. apply (refspec_rowspec A0 (f_bid f) r); [rewrite E; left; reflexivity|].
+      rewrite <- Hm1, <- Hrows. exact Ef. }
+    split.
+    + apply scan_new_sorted, Hs.
+    + intros b. destruct (mix_snoc P A0 f b Hn) as [-> _]. rewrite scan_new_row, Hrows.
+      unfold rowof. destruct (f_audit f) eqn:Ea; destruct (str_eqb b (f_bid f)) eqn:E; try reflexivity.
+      apply str_eqb_eq in E. subst b. now rewrite <- Hrows.
+    + intros b r. destruct (mix_snoc P A0 f b Hn) as [_ ->]. rewrite scan_new_ref, Hrefs.
+      destruct (str_eqb b (f_bid f)) eqn:E.
+      * apply str_eqb_eq in E. subst b. rewrite Hm2, Hnor. simpl. tauto.
+      * apply str_eqb_neq in E. tauto.
+Qed.
+
+Lemma scan_loop_inv R : forall P J cl A0,
+  scan_inv J P A0 -> wf A0 -> NoDup (ar_bids (P ++ R)) -> compat A0 (P ++ R) ->
+  scan_inv (fst (fold_left scan_one R (J, cl))) (P ++ R) A0.
+Proof.
+  induction R as [|f R IH]; intros P J cl A0 Hinv Hwf Hnd Hc; cbn [fold_left].
+  - now rewrite app_nil_r.
+  - replace (P ++ f :: R) with ((P ++ [f]) ++ R) in * by (rewrite <- app_assoc; reflexivity).
+    destruct (scan_one (J, cl) f) as [J1 cl1] eqn:E.
+    apply IH; auto.
+    change J1 with (fst (J1, cl1)). rewrite <- E. apply scan_one_inv; auto.
+    + unfold ar_bids in Hnd. rewrite !map_app in Hnd. apply NoDup_app_l in Hnd.
+      simpl in Hnd. apply NoDup_remove_2 in Hnd. now rewrite app_nil_r in Hnd.
+    + intros g Hg. apply Hc; auto. apply in_or_app. left. apply in_or_app. right. left. reflexivity.
+Qed.
+
+Definition drop_unseen (seen : list bid) (t : index * bool) (b : bid) : index * bool :=
+  if bmem b seen then t else (ix_remove b (fst t), true).
+
+Lemma drop_unseen_spec seen bs : forall s,
+  tables_sorted (fst s) ->
+  let K := fst (fold_left (drop_unseen seen) bs s) in
+  tables_sorted K /\
+  (forall b, find_row b (ix_files K) =
+             if bmem b bs && negb (bmem b seen) then None else find_row b (ix_files (fst s))) /\
+  (forall b r, In (b, r) (ix_refs K) <-> In (b, r) (ix_refs (fst s)) /\ ~ (In b bs /\ ~ In b seen)).
+Proof.
+  induction bs as [|c bs IH]; intros s Hs; simpl.
+  - split; [exact Hs|]. split; [reflexivity|]. intros b r. tauto.
+  - destruct (bmem c seen) eqn:Ec.
+    + replace (drop_unseen seen s c) with s by (unfold drop_unseen; now rewrite Ec).
+      destruct (IH s Hs) as (H1 & H2 & H3). split; [exact H1|]. split.
+      * intros b. rewrite H2. destruct (str_eqb b c) eqn:E; [|reflexivity].
+        apply str_eqb_eq in E. subst b. rewrite Ec. simpl. now rewrite andb_false_r.
+      * intros b r. rewrite H3. apply bmem_In in Ec. split; intros [Ha Hb]; split; auto.
+        -- intros [[<-|Hin] Hns]; [contradiction|]. apply Hb. auto.
+        -- intros [Hin Hns]. apply Hb. auto.
+    + replace (drop_unseen seen s c) with (ix_remove c (fst s), true) by (unfold drop_unseen; now rewrite Ec).
+      destruct (IH (ix_remove c (fst s), true)) as (H1 & H2 & H3); [now apply ix_remove_sorted|].
+      simpl fst in *. split; [exact H1|]. split.
+      * intros b. rewrite H2, ix_remove_row. destruct (str_eqb b c) eqn:E; simpl.
+        -- apply str_eqb_eq in E. subst b. rewrite Ec. simpl. now destruct (bmem c bs).
+        -- reflexivity.
+      * intros b r. rewrite H3, ix_remove_ref. apply bmem_false in Ec. split.
+        -- intros [[Hne Hin] Hb]. split; [exact Hin|]. intros [[->|Hin'] Hns]; [now apply Hne|]. apply Hb. auto.
+        -- intros [Hin Hb]. split; [split; [|exact Hin]|].
+           ++ intros ->. apply Hb. auto.
+           ++ intros [Hin' Hns]. apply Hb. auto.
+Qed.
+
+Lemma Inv_scan_inv I A0 : Inv I A0 -> scan_inv I [] A0.
+Proof. intros [H1 H2 H3 H4]. split; [split; assumption|exact H2|exact H4]. Qed.
+
+Theorem scan_Inv I cl A0 A :
+  Inv I A0 -> wf A0 -> wf A -> compat A0 A -> Inv (fst (scan (I, cl) A)) A.
+Proof.
+  intros Hinv Hwf0 Hwf Hc. unfold scan.
+  pose proof (scan_loop_inv A [] I cl A0 (Inv_scan_inv _ _ Hinv) Hwf0 Hwf Hc) as [Hs Hrows Hrefs].
+  simpl app in *. set (s1 := fold_left scan_one A (I, cl)) in *.
+  change (fun (t : index * bool) b => if bmem b (ar_bids A) then t else (ix_remove b (fst t), true))
+    with (drop_unseen (ar_bids A)).
+  destruct (drop_unseen_spec (ar_bids A) (build_ids (fst s1)) s1 Hs) as ([K1 K2] & Krows & Krefs).
+  split; [exact K1| |exact K2|].
+  - intros b. rewrite Krows, Hrows. unfold mixrow.
+    destruct (bmem b (ar_bids A)) eqn:Eb; simpl.
+    + now rewrite andb_false_r.
+    + rewrite andb_true_r. apply bmem_false in Eb. rewrite (rowspec_absent A b Eb).
+      destruct (bmem b (build_ids (fst s1))) eqn:Ei; [reflexivity|].
+      apply bmem_false in Ei. unfold build_ids in Ei. apply find_row_None in Ei.
+      rewrite <- Ei, Hrows. unfold mixrow. apply bmem_false in Eb. now rewrite Eb.
+  - intros b r. rewrite Krefs, Hrefs. unfold mixref.
+    destruct (bmem b (ar_bids A)) eqn:Eb.
+    + apply bmem_In in Eb. tauto.
+    + apply bmem_false in Eb. rewrite (refspec_absent A b Eb). split; [|intros []].
+      intros [Hin Hno]. apply Hno. split; [|exact Eb].
+      apply refspec_rowspec in Hin.
+      unfold build_ids. destruct (find_row b (ix_files (fst s1))) eqn:Ef.
+      * apply find_row_Some_In in Ef. apply in_map_iff. exists (b, p). auto.
+      * exfalso. apply Hin. rewrite <- Ef, Hrows. unfold mixrow. apply bmem_false in Eb. now rewrite Eb.
+Qed.
+
+Lemma Inv_unique I J A : Inv I A -> Inv J A -> I = J.
+Proof.
+  intros [F1 R1 S1 T1] [F2 R2 S2 T2]. destruct I as [fi ri], J as [fj rj]; simpl in *.
+  f_equal.
+  - apply rows_ext; auto. intros b. now rewrite R1, R2.
+  - apply rsorted_ext; auto. intros [b r]. now rewrite T1, T2.
+Qed.
+
+Lemma Inv_empty : Inv ix_empty [].
+Proof. split; simpl; try constructor; try reflexivity; try tauto. Qed.
+
+Lemma compat_nil A : compat [] A.
+Proof. intros g f []. Qed.
+
+Lemma wf_nil : wf [].
+Proof. constructor. Qed.
+
+(* the scan result does not depend on the index it started from *)
+Theorem scan_canonical I cl cl' A0 A :
+  Inv I A0 -> wf A0 -> wf A -> compat A0 A ->
+  fst (scan (I, cl) A) = fst (scan (ix_empty, cl') A).
+Proof.
+  intros. eapply Inv_unique; [eapply scan_Inv; eauto|].
+  eapply scan_Inv; [apply Inv_empty|apply wf_nil|assumption|apply compat_nil].
+Qed.
+
+Lemma filter_all {A} (p : A -> bool) l : (forall x, In x l -> p x = true) -> filter p l = l.
+Proof.
+  induction l as [|a l IH]; simpl; intros H; [reflexivity|].
+  rewrite (H a (or_introl eq_refl)). f_equal. apply IH. intros x Hx. apply H. auto.
+Qed.
+
+Lemma Inv_prune K A : Inv K A -> ix_prune K = K.
+Proof.
+  intros [F R S T]. unfold ix_prune. destruct K as [fs rs]; simpl in *. f_equal.
+  apply filter_all. intros [b r] Hin. simpl. apply bmem_In.
+  apply T, refspec_rowspec in Hin. unfold build_ids. simpl.
+  destruct (find_row b fs) eqn:Ef; [|now rewrite <- R in Hin].
+  apply find_row_Some_In in Ef. apply in_map_iff. exists (b, p). auto.
+Qed.
+
+Lemma Inv_exit K cl A : Inv K A -> ix_exit (K, cl) = K.
+Proof. intros H. unfold ix_exit. simpl. destruct cl; [now apply (Inv_prune K A)|reflexivity]. Qed.
